@@ -305,6 +305,22 @@ pub fn run(args: &Args) -> Report {
             }
         }
     }
+    // sizes around the 16-bit boundaries: the content length is the one 32-bit length field of the format, the tag
+    // section and every tag string are 16-bit ones
+    if sample.is_none() {
+        for (n, fill) in [(65_534usize, "a"), (65_535, "a"), (65_536, "a"), (65_537, "b"), (70_000, "c"), (131_072, "d"), (200_000, "e"), (30_000, "\u{e9}"), (40_000, "\n")] {
+            let mut e = e2.clone();
+            e.content = fill.repeat(n);
+            shapes.push(e);
+            rep.count("large_content_shapes");
+        }
+        for n in [30_000usize, 65_000, 65_520] {
+            let mut e = e1.clone();
+            e.tags = vec![vec!["t".into(), "v".repeat(n)]];
+            shapes.push(e);
+            rep.count("large_tag_shapes");
+        }
+    }
     if sample.is_some() {
         shapes.truncate(3);
     }
